@@ -31,6 +31,14 @@ def build(repo, findings):
     a.r1().resub(r'\n\}$', '\n    int_value\n}', 'R6', 'wrapper epilogue returning the live variable `int_value`', count=1)
     a.sig(ret='r', ensures=[C('C07 integer-append-is-wrapping-add', 'r == parse_or_0(base@).wrapping_add(parse_or_0(suffix@))')])
     u.add(a)
+    # filling an indexed array from a literal `([k]=v w ..)`: the index after the largest possible one must not overflow (C01)
+    u.add(src.item(r'^pub struct ArrayLiteral\(', 'ArrayLiteral').r1(keep_derive=()))
+    fn = 'update_indexed_array_from_literals'
+    g = src.method_anywhere(fn).r1().r11()
+    g.resub(r'\bkey\.parse\(\)\.unwrap_or\(0\)', 'parse_u64_or_0(key.as_str())', 'R14', 'call chain parse::<u64>().unwrap_or(0) -> stub', count=None)
+    g.resub(r'for \(key, value\) in literal_values\.0 \{', 'for (key, value) in literal_values.0.into_iter() {', 'R24', 'consuming iteration spelled out', count=None)
+    g.sig(fn, ensures=[C('C01 array-literal-indexes-never-overflow', 'true')])
+    u.add(g)
     # the integer attribute on a plain assignment (R6 block slice of apply_value_transforms)
     fn = 'integer_attribute_value'
     b = src.block_slice(r'^\s*if treat_as_int \{$(?=\n\s*\*s = )', 'fn integer_attribute_value(s: &mut String)', fn, within_fn='apply_value_transforms')
@@ -48,5 +56,5 @@ def build(repo, findings):
     u.assume('uninterp', 'parse_or_0 (text -> integer, default 0), btree_keys, btree_is_max, arith_value (the value of a text as an arithmetic expression), int_text')
     u.assume('external_body', 'parse_i64_or_0 stands for `E.parse::<i64>().unwrap_or(0)` (rule R14); error::Error is opaque; From<ErrorKind> for Error is a stub')
     u.assume('stub', 'assign_at_index / assign themselves (ShellValue with fn-pointer fields, BTreeMap through closures) are NOT verified; only the sliced statements are. The two array-element append statements have the same shape and are covered by the mutant battery only.')
-    u.expected_min_fns = 3
+    u.expected_min_fns = 4
     return u
